@@ -31,6 +31,7 @@ CHECKS = {
         ],
         "subs": [
             {"name": "cli", "test": "TestCLI", "quick": 1500, "thorough": 12000, "shards": 16},
+            {"name": "cli-rt", "test": "TestCLIRealTime", "quick": 300, "thorough": 2000, "shards": 8},
         ],
     },
     "C20": {
